@@ -170,6 +170,21 @@ def run(chk):
                        '%s:%d' % (fi.module.relpath, n.lineno), key='C15-I|%s|%s[%d]|%s' % (fq, n.value.id, k, bctx[:60]))
     chk.floor('constant-index header subscripts', nsub, 5)
 
+    # ---- U: definite assignment
+    chk.rule('C15-U', 'no local variable is read on a path on which it was not bound (an UnboundLocalError is a crash, whatever '
+                      'the input that takes that path)')
+    from . import codelemmas
+    codelemmas.definite_assignment(chk, c, 'C15-U')
+
+    # ---- P: definition / use protocol
+    chk.rule('C15-P', 'definitions agree with their uses: no unbound one-argument super(), tuple-returning functions return the '
+                      'arity their callers unpack, accessor pairs are bound to their property')
+    codelemmas.call_protocol(chk, c, 'C15-P')
+
+    # ---- D: None dereference under its own test
+    chk.rule('C15-D', 'no branch that has just established `x is None` subscripts x or reads an attribute of it')
+    codelemmas.none_dereference(chk, c, 'C15-D')
+
     # ---- X: constant-index subscripts of the value text on the datatype path
     chk.rule('C15-X', 'on the datatype path (utils, factories, the date/time constructors) every constant-index subscript of '
                       'a text parameter is protected: a length test that forces len > index on every path to it (also as an '
